@@ -553,7 +553,7 @@ def _check_files(plan, tag, out, V, neigh, sp, valid, ns, nap, od, res, chunk, n
         wt, rows, digs = ent[0], ent[1], (ent[2] if len(ent) > 2 else [None] * len(ent[1]))
         for r_, dg in zip(rows, digs):
             per_row.setdefault(r_, []).append(((wt[1] if wt else None), dg))
-    for r_, lst in sorted(per_row.items()):
+    for r_, lst in (sorted(per_row.items()) if n_jobs > 1 else []):      # with one worker the tasks run in submission order: no hazard
         last_by_task = {}
         for t_, dg in lst:
             last_by_task[t_] = dg
